@@ -41,41 +41,25 @@ func (c *ATConn) PrepareContext(ctx context.Context, query string) (driver.Stmt,
 			c.txCtx = types.NewTxCtx()
 		}()
 	}
-	return c.Conn.PrepareContext(ctx, query)
+	stmt, err := c.Conn.PrepareContext(ctx, query)
+	if err != nil {
+		return nil, err
+	}
+	if s, ok := stmt.(*Stmt); ok {
+		// inside a global transaction the statement is executed the way ExecContext / QueryContext do it
+		s.atConn = c
+	}
+	return stmt, nil
 }
 
 // QueryContext
 func (c *ATConn) QueryContext(ctx context.Context, query string, args []driver.NamedValue) (driver.Rows, error) {
-	if c.createOnceTxContext(ctx) {
-		defer func() {
-			c.txCtx = types.NewTxCtx()
-		}()
-	}
-
-	ret, err := c.createNewTxOnExecIfNeed(ctx, func() (types.ExecResult, error) {
-		executor, err := exec.BuildExecutor(c.res.dbType, c.txCtx.TransactionMode, query)
+	ret, err := c.execInBranch(ctx, query, args, func(ctx context.Context, query string, args []driver.NamedValue) (types.ExecResult, error) {
+		ret, err := c.Conn.QueryContext(ctx, query, args)
 		if err != nil {
 			return nil, err
 		}
-
-		execCtx := &types.ExecContext{
-			TxCtx:                c.txCtx,
-			Query:                query,
-			NamedValues:          args,
-			Conn:                 c.targetConn,
-			DBName:               c.dbName,
-			IsSupportsSavepoints: true,
-			IsAutoCommit:         c.GetAutoCommit(),
-		}
-
-		return executor.ExecWithNamedValue(ctx, execCtx,
-			func(ctx context.Context, query string, args []driver.NamedValue) (types.ExecResult, error) {
-				ret, err := c.Conn.QueryContext(ctx, query, args)
-				if err != nil {
-					return nil, err
-				}
-				return types.NewResult(types.WithRows(ret)), nil
-			})
+		return types.NewResult(types.WithRows(ret)), nil
 	})
 	if err != nil {
 		return nil, err
@@ -85,13 +69,30 @@ func (c *ATConn) QueryContext(ctx context.Context, query string, args []driver.N
 
 // ExecContext
 func (c *ATConn) ExecContext(ctx context.Context, query string, args []driver.NamedValue) (driver.Result, error) {
+	ret, err := c.execInBranch(ctx, query, args, func(ctx context.Context, query string, args []driver.NamedValue) (types.ExecResult, error) {
+		ret, err := c.Conn.ExecContext(ctx, query, args)
+		if err != nil {
+			return nil, err
+		}
+		return types.NewResult(types.WithResult(ret)), nil
+	})
+	if err != nil {
+		return nil, err
+	}
+	return ret.GetResult(), nil
+}
+
+// execInBranch runs one business statement with the AT duties around it (transaction context of the
+// global transaction, implicit local transaction in autocommit mode, images, undo log, lock keys);
+// target sends the statement to the database: as text on the connection, or through a prepared statement
+func (c *ATConn) execInBranch(ctx context.Context, query string, args []driver.NamedValue, target exec.CallbackWithNamedValue) (types.ExecResult, error) {
 	if c.createOnceTxContext(ctx) {
 		defer func() {
 			c.txCtx = types.NewTxCtx()
 		}()
 	}
 
-	ret, err := c.createNewTxOnExecIfNeed(ctx, func() (types.ExecResult, error) {
+	return c.createNewTxOnExecIfNeed(ctx, func() (types.ExecResult, error) {
 		executor, err := exec.BuildExecutor(c.res.dbType, c.txCtx.TransactionMode, query)
 		if err != nil {
 			return nil, err
@@ -107,21 +108,8 @@ func (c *ATConn) ExecContext(ctx context.Context, query string, args []driver.Na
 			IsAutoCommit:         c.GetAutoCommit(),
 		}
 
-		ret, err := executor.ExecWithNamedValue(ctx, execCtx,
-			func(ctx context.Context, query string, args []driver.NamedValue) (types.ExecResult, error) {
-				ret, err := c.Conn.ExecContext(ctx, query, args)
-				if err != nil {
-					return nil, err
-				}
-				return types.NewResult(types.WithResult(ret)), nil
-			})
-
-		return ret, err
+		return executor.ExecWithNamedValue(ctx, execCtx, target)
 	})
-	if err != nil {
-		return nil, err
-	}
-	return ret.GetResult(), nil
 }
 
 // BeginTx
